@@ -541,7 +541,8 @@ impl Translator {
             | FuncKind::HostFunctionWrapper(_) => {
                 st.return_stack.pop();
                 let SolvedType::Function(_, out_ty) = func_ty else { unreachable!() };
-                if *out_ty == SolvedType::Void {
+                // a generic return type may be instantiated with void
+                if out_ty.subst(&mono) == SolvedType::Void {
                     self.emit(st, Instr::ReturnVoid);
                 } else {
                     self.emit(st, Instr::Return(nargs as u32));
